@@ -434,13 +434,15 @@ def run(repo: Repo) -> Result:
                             cond_cache[cond] = cond(repo)
                         broken = cond_cache[cond]
                         if broken:
-                            res.add("C02-ESCAPE", construct, f"{site.func.split('.')[-1]}:{site.prim}:{site.arg}:{site.exc}:condition", f"{site.exc} may escape {rk[0].split('.')[-1]} from `{site.prim} {site.arg}` in {site.func}: the reviewed row's side condition no longer holds — {broken}", site.file, site.line)
+                            res.add("C02-ESCAPE", construct, f"{site.prim}:{_loose_arg(site.arg)}:{site.exc}:condition", f"{site.exc} may escape {rk[0].split('.')[-1]} from `{site.prim} {site.arg}` in {site.func}: the reviewed row's side condition no longer holds — {broken}", site.file, site.line)
                     continue
                 chain = " > ".join(q.replace("liquid.", "") for q in path[-6:])
                 res.add(
                     "C02-ESCAPE",
                     construct,
-                    f"{site.func.split('.')[-1]}:{site.prim}:{site.arg}:{site.exc}",
+                    # keyed by construct + primitive + argument shape + exception: the helper the
+                    # site sits in and the names of its locals are not part of the identity
+                    f"{site.prim}:{_loose_arg(site.arg)}:{site.exc}",
                     f"{site.exc} may escape {rk[0].split('.')[-1]}: `{site.prim}` on `{site.arg}`"
                     + (f" (kinds {site.kinds})" if site.kinds else "")
                     + f" in {site.func} is not covered by any handler on the path … > {chain} > {site.func.replace('liquid.', '')}",
